@@ -408,7 +408,7 @@ fn compressible_64k(r: &mut Rng) -> Vec<u8> {
     v.truncate(65536);
     v
 }
-const FAMILIES: &[&str] = &["empty", "one", "eq32", "text", "rand_small", "zeros4k", "comp64k", "rand64k", "rand_mid", "thresh", "thresh", "edge64k", "huge"];
+const FAMILIES: &[&str] = &["empty", "one", "eq32", "text", "rand_small", "zeros4k", "comp64k", "rand64k", "rand_mid", "thresh", "thresh", "edge64k", "edge128k", "huge"];
 /// record lengths on both sides of every threshold the stores' code knows: SimpleZip fragment limits 8 / 256,
 /// DictZip min_compression_size presets 10 / 16 / 32 / 64 / 128 / 256, the FSE "too small" limit 100, SIMD
 /// chunk sizes 16 / 32 / 64, ZipOffset SIMD_THRESHOLD 64, the 4 KiB cache page, SecurePool chunk 1024
@@ -447,14 +447,21 @@ fn payload_of(fam: &str, r: &mut Rng) -> Vec<u8> {
             v.truncate(n);
             v
         }
+        // 128 KiB - 1 / 128 KiB / 128 KiB + 1: twice the 64 KiB block of the FSE encoder (switch to its block-parallel path)
+        "edge128k" => {
+            let n = 131071 + r.range(0, 2) as usize;
+            let mut v = corpus(r.next(), n);
+            v.truncate(n);
+            v
+        }
         // beyond 64 KiB: 200 KiB of random bytes, or 1 MiB that shrinks by far more than 32x
         "huge" => {
             if r.chance(1, 2) {
                 let n = 200 * 1024 + r.below(7) as usize;
                 r.bytes(n)
             } else {
-                let mut v = vec![0u8; 1 << 20];
-                let at = r.below(1 << 20) as usize;
+                let mut v = vec![0u8; (1 << 20) - 1 + r.range(0, 2) as usize]; // 1 MiB - 1 / 1 MiB / 1 MiB + 1
+                let at = r.below(1 << 20) as usize % v.len();
                 v[at] = 1;
                 v
             }
@@ -616,6 +623,17 @@ fn dictzip_cfg(var: &str) -> Option<DictZipConfig> {
             c
         }
         "cache_1mb" => dz_small(10).with_cache_size_mb(1),
+        // entropy stage acceptance ratio at both ends of what validate() admits
+        "ratio0" => {
+            let mut c = ent(DzEntropy::HuffmanO1, 1);
+            c.entropy_zip_ratio_require = 0.0;
+            c
+        }
+        "ratio1" => {
+            let mut c = ent(DzEntropy::Fse, 8);
+            c.entropy_zip_ratio_require = 1.0;
+            c
+        }
         _ => return None,
     })
 }
@@ -684,7 +702,7 @@ fn mutable_subjects() -> Vec<String> {
     for s in [
         "zstd:mem_l22", "zstd:mem_l0", "zstd:mem_lneg", "cached:tiny_cache", "cached:security", "cached:toggle", "cached:shared_cache", "cached:shared_cache_back",
         "trie:cache0", "trie:custom", "triekey:cache0", "triekey:cache1", "triekey:custom",
-        "dictzip:min0", "dictzip:min1", "dictzip:cache1entry", "dictzip:cache_1mb", "dictzip:from_file", "dictzip:external_dict",
+        "dictzip:min0", "dictzip:min1", "dictzip:ratio0", "dictzip:ratio1", "dictzip:cache1entry", "dictzip:cache_1mb", "dictzip:from_file", "dictzip:external_dict",
         "dictzip:builder_setters", "dictzip:from_samples", "dictzip:from_vec_u8", "dictzip:from_sortable", "dictzip:from_zo", "dictzip:from_fixed",
     ] {
         v.push(s.into());
@@ -938,7 +956,8 @@ fn bulk_subjects() -> Vec<String> {
     // coverage round: twins of the builders, build_from_* constructors, ids at the end of the id space, config extremes
     for x in [
         "zipoffset:add_records", "zipoffset:with_pool", "zipoffset:default+savefile", "zipoffset:batch4_flush",
-        "simplezip:frag1_1", "simplezip:frag_1mb", "simplezip:frag1k_1k", "mixedlen:fixed1000000", "mem:from_data_top",
+        "simplezip:frag1_1", "simplezip:frag_1mb", "simplezip:frag1k_1k", "simplezip:frag_64k_m1", "simplezip:frag_64k", "simplezip:frag_64k1",
+        "simplezip:frag_64k_bar", "simplezip:frag_1mb_bar", "simplezip:nodelim_1mb", "simplezip:frag1mb_1mb", "zipoffset:ow8", "zipoffset:ow32_sw64", "mixedlen:fixed1000000", "mem:from_data_top",
         "triebuild:add_batch", "triebuild:progress", "triebuild:builder_default", "triebuild:custom_dups",
         "triefrom:kv", "triefrom:sortable", "triefrom:zo", "triefrom:fixed", "triefrom:vec_u8", "triefrom:slice_u8",
     ] {
@@ -989,6 +1008,19 @@ fn zipoffset_cfg(var: &str) -> Option<ZipOffsetBlobStoreConfig> {
         "chk2_raw" => ZipOffsetBlobStoreConfig { compress_level: 0, checksum_level: 2, ..Default::default() },
         "chk0_zip3" => ZipOffsetBlobStoreConfig { compress_level: 3, checksum_level: 0, ..Default::default() },
         "chk1_zip1" => ZipOffsetBlobStoreConfig { compress_level: 1, checksum_level: 1, ..Default::default() },
+        // offset index field widths at both ends of what SortedUintVecConfig::validate() admits
+        "ow8" => ZipOffsetBlobStoreConfig {
+            compress_level: 0,
+            checksum_level: 0,
+            offset_config: SortedUintVecConfig { log2_block_units: 4, offset_width: 8, sample_width: 16, use_simd: false },
+            ..Default::default()
+        },
+        "ow32_sw64" => ZipOffsetBlobStoreConfig {
+            compress_level: 3, // (level 22 costs ~0.5 s per record; the level bound is exercised by zstd:mem_l22)
+            checksum_level: 3,
+            offset_config: SortedUintVecConfig { log2_block_units: 8, offset_width: 32, sample_width: 64, use_simd: true },
+            ..Default::default()
+        },
         "blk16" => blk(4),
         "blk128" => blk(7),
         "blk256" => blk(8),
@@ -1066,6 +1098,14 @@ fn build(name: &str, recs: &[Vec<u8>]) -> Result<(Box<dyn Store>, Built), String
                 "frag1_1" => SimpleZipConfig::builder().min_frag_len(1).max_frag_len(1).build().map_err(e)?,
                 "frag_1mb" => SimpleZipConfig::builder().min_frag_len(1).max_frag_len(1024 * 1024).build().map_err(e)?,
                 "frag1k_1k" => SimpleZipConfig::builder().min_frag_len(1024).max_frag_len(1024).build().map_err(e)?,
+                // fragments around 2^16 bytes and at the 1 MiB bound of validate(), default and custom delimiters
+                "frag_64k_m1" => SimpleZipConfig::builder().min_frag_len(1).max_frag_len(65535).build().map_err(e)?,
+                "frag_64k" => SimpleZipConfig::builder().min_frag_len(1).max_frag_len(65536).build().map_err(e)?,
+                "frag_64k1" => SimpleZipConfig::builder().min_frag_len(8).max_frag_len(65537).build().map_err(e)?,
+                "frag_64k_bar" => SimpleZipConfig::builder().min_frag_len(4).max_frag_len(65536).delimiters(vec![b'|']).build().map_err(e)?,
+                "frag_1mb_bar" => SimpleZipConfig::builder().min_frag_len(8).max_frag_len(1024 * 1024).delimiters(vec![b'|', 0]).build().map_err(e)?,
+                "nodelim_1mb" => SimpleZipConfig::builder().min_frag_len(8).max_frag_len(1024 * 1024).delimiters(vec![]).build().map_err(e)?,
+                "frag1mb_1mb" => SimpleZipConfig::builder().min_frag_len(1024 * 1024).max_frag_len(1024 * 1024).build().map_err(e)?,
                 _ => return Err("variant".into()),
             };
             W::new(SimpleZipBlobStore::build_from(recs, &cfg).map_err(e)?).batching().iterable().boxed()
@@ -1522,7 +1562,7 @@ fn allowed_families(name: &str) -> Vec<&'static str> {
     }
     let mut v = FAMILIES.to_vec();
     if name.contains("plain") || name.contains("l19") || name.contains("l22") {
-        v.retain(|f| !f.ends_with("64k") && *f != "huge"); // fsync per record / 50-500 ms per put: keep it light
+        v.retain(|f| !f.ends_with("64k") && !f.ends_with("128k") && *f != "huge"); // fsync per record / 50-500 ms per put: keep it light
     }
     v
 }
@@ -1650,7 +1690,7 @@ fn fill_run(tr: &mut Tracer, c: &mut Counters, a: &Args, name: &str, n: usize, f
     };
     tr.reset("blobstore", name, json!({"fam":fam_of(name),"variant":variant_of(name),"regime":"fill","n":n,"seed":a.seed,"keyed":false}));
     c.runs += 1;
-    let small: Vec<&'static str> = fams.iter().copied().filter(|f| !f.ends_with("64k") && *f != "zeros4k" && *f != "rand_mid" && *f != "huge").collect();
+    let small: Vec<&'static str> = fams.iter().copied().filter(|f| !f.ends_with("64k") && !f.ends_with("128k") && *f != "zeros4k" && *f != "rand_mid" && *f != "huge").collect();
     let mut issued: Vec<u32> = vec![];
     let mut alive = true;
     let mut i = 0;
@@ -1853,7 +1893,15 @@ fn keyed_run(tr: &mut Tracer, c: &mut Counters, a: &Args, name: &str, run: usize
 
 // ---------------------------------------------------------------- B1: bulk builds
 
-const PROFILES: &[&str] = &["all_empty", "equal16", "mixed16", "text", "big_first", "ragged", "thresh"];
+const PROFILES: &[&str] = &["all_empty", "equal16", "mixed16", "text", "big_first", "ragged", "thresh", "long_runs"];
+/// lengths of the delimiter-free runs of profile "long_runs": both sides of 2^16 (a fragment length that no longer fits
+/// 16 bits), 200 000, both sides of the 1 MiB upper bound of SimpleZipConfig::max_frag_len, and small ones
+const RUNS: &[usize] = &[65535, 65536, 65537, 200_000, (1 << 20) - 1, 1 << 20, (1 << 20) + 1, 5, 131_073, 0, 70_000, 300];
+/// a run without any delimiter of the default set (\n \r \t space) or of the custom sets used here ('|', NUL)
+fn run_of(len: usize, r: &mut Rng) -> Vec<u8> {
+    let (a, b) = (r.next(), r.next() | 1);
+    (0..len as u64).map(|i| b'A' + ((a.wrapping_add(i.wrapping_mul(b)) >> 7) % 58) as u8).map(|c| if c == b'|' { b'#' } else { c }).collect()
+}
 fn bulk_records(profile: &str, n: usize, r: &mut Rng) -> Vec<Vec<u8>> {
     (0..n)
         .map(|i| match profile {
@@ -1868,6 +1916,15 @@ fn bulk_records(profile: &str, n: usize, r: &mut Rng) -> Vec<Vec<u8>> {
                 }
             }
             "text" => text_line(r),
+            // one delimiter-free run per record; every fourth record: two runs joined by each kind of delimiter
+            "long_runs" => {
+                let mut v = run_of(RUNS[i % RUNS.len()], r);
+                if i % 4 == 3 {
+                    v.extend_from_slice(b" |");
+                    v.extend(run_of(70_000, r));
+                }
+                v
+            }
             // record lengths t-1, t, t+1 around every threshold of the stores' code, in turn
             "thresh" => {
                 let t = THRESHOLDS[i % THRESHOLDS.len()];
@@ -2119,6 +2176,14 @@ fn drive_bulk(tr: &mut Tracer, c: &mut Counters, a: &Args, name: &str, thorough:
             if (name.ends_with("vec_u8") || name.ends_with("slice_u8")) && n > 1 {
                 continue;
             }
+            // the long delimiter-free runs: one build holding every run length once (about 4.5 MB)
+            if *p == "long_runs" {
+                if n != 1 {
+                    continue;
+                }
+                bulk_run(tr, c, a, name, p, RUNS.len());
+                continue;
+            }
             // ids at both ends of the id space: the point is the wrap of the id counter, not the size
             // (TLC overflows its stack building functions over thousands of scattered negative ids)
             if name == "mem:from_data_top" && n > 513 {
@@ -2143,7 +2208,7 @@ fn drive_bulk(tr: &mut Tracer, c: &mut Counters, a: &Args, name: &str, thorough:
 
 fn drive_mutable(tr: &mut Tracer, c: &mut Counters, a: &Args, name: &str, thorough: bool) {
     let fams = allowed_families(name);
-    let light: Vec<&'static str> = fams.iter().copied().filter(|f| !f.ends_with("64k") && *f != "huge").collect();
+    let light: Vec<&'static str> = fams.iter().copied().filter(|f| !f.ends_with("64k") && !f.ends_with("128k") && *f != "huge").collect();
     let heavy_io = name.contains("plain") || name.contains("l19"); // fsync per record / ~50 ms per put
     if name.contains("l22") {
         // zstd level 22: ~0.5 s per put; the clamp at the top of the level range only needs a handful of records
@@ -2190,7 +2255,7 @@ fn replay(a: &Args) {
     // the histories run on every mutable subject except the keyed ones (own driver) and the constructor twins of
     // DictZipBlobStore (0.1-0.3 s of dictionary training each; the store type is covered by the other dictzip subjects)
     let skip = |s: &str| {
-        s.starts_with("triekey") || s.starts_with("dictzip:from_") || s == "dictzip:external_dict" || s == "dictzip:builder_setters" || s == "zstd:mem_l22"
+        s.starts_with("triekey") || s.starts_with("dictzip:from_") || s == "dictzip:external_dict" || s == "dictzip:builder_setters" || s == "zstd:mem_l22" || s.starts_with("dictzip:ratio")
     };
     let subs: Vec<String> = mutable_subjects().into_iter().filter(|s| a.wants(s) && !skip(s)).collect();
     let next = AtomicUsize::new(0);
